@@ -95,7 +95,9 @@ def oracle_c02(case, impl_out):
     for k, c in enumerate(comps):
         call = {"groups": c["groups"], "infos": c["infos"]}
         p = passes[k] if k < len(passes) else {}
-        if "ranked_groups" in p:
+        if c.get("out_groups") is not None and c.get("out_infos") is not None and c.get("out_scores") is not None:
+            res = {"groups": c["out_groups"], "infos": c["out_infos"], "scores": c["out_scores"]}  # what do_competition returned
+        elif "ranked_groups" in p:
             res = {"groups": p["ranked_groups"], "infos": p["ranked_infos"], "scores": p["ranked_scores"]}
         elif impl_out.get("err") == "no_ranked_groups" and k == len(comps) - 1:
             res = {"err": "no_ranked_groups"}
